@@ -476,7 +476,7 @@ def run(tier, seed, workers):
             '%s; helper contracts escape_html_text (4 option combos) / '
             'html.escape / escape_url on every code point 0..0x10FFFF (escape_url skips lone '
             'surrogates) and on %d random concatenations (seeded)'
-            % (len(spec), len(muts), MUT_CHARS, 'unbounded' if thorough else mut_maxlen,
+            % (len(spec), len(muts), MUT_CHARS, 'any (no length limit)' if thorough else mut_maxlen,
                len(attack), len(TEMPLATES), len(HOSTILE), len(TEMPLATES2), len(HOSTILE),
                len(TEMPLATES) if thorough else len(CONCAT_SINKS), n_alpha, ''.join(SIGMA),
                alpha_full, alpha_full8,
